@@ -112,11 +112,23 @@ def value_guards(b, eb, bb, allow=None):
     from .. import paths
     from ..expr import show
     out = []
-    for g in paths.guards(b, bb, eb):
+    gs = list(paths.guards(b, bb, eb))
+    # ... and the tests it is control dependent on without being dominated by them (`a && b`
+    # before a `continue`, match arms sharing a block): the same question, asked of paths
+    if not os.environ.get("JBV_NO_CONTROL_DEP"):
+        try:
+            for g in paths.control_guards(b, bb, eb):
+                if g not in gs:
+                    gs.append(g)
+        except Exception:  # noqa: BLE001
+            pass
+    for g in gs:
         if g[0] in ("true", "false"):
             pos, c = paths.bool_atoms(g)
             if allow is not None and allow(pos, c):
                 continue
-            out.append(("" if pos else "not ") + show(c)[:90])
+            txt = ("" if pos else "not ") + show(c)[:90]
+            if txt not in out:
+                out.append(txt)
     return out
 
